@@ -21,9 +21,14 @@ def gen_set(rng):
     for _ in range(nd):
         dims.append(rng.choice([0, 1, 1, 2, 2, 3, 4]) if rng.random() < 0.95 else rng.choice([255, 256]))
     if nd >= 2 and rng.random() < 0.02: dims = [65536, 65536]; nd = 2        # the 2^32 wrap
+    big = None
+    if rng.random() < 0.03: big = rng.choice([([4, 25, 13, 41, 61, 1321], 4), ([2, 2, 25, 13, 41, 61, 1321], 4), ([65536, 65537], 65536 % 2**32 and 0 or 65536), ([3, 1431655766], 2)])
     n = prod(dims) if nd else rng.choice([0, 1, 2, 3, 7])
     if n > 300: n = 0
-    r = rng.random()
+    if big is not None:      # a product of 2^32 + k with k values: the count equals the product only modulo 2^32
+        dims, n = list(big[0]), big[1]; nd = len(dims)
+        if n > 300: dims, n = [4, 25, 13, 41, 61, 1321], 4; nd = 6
+    r = rng.random() if big is None else 1.0
     if r < 0.12: n = max(0, n + rng.choice([-1, 1, 2]))
     elif r < 0.16 and nd >= 2: n = prod(dims[:-1])             # product of a proper prefix
     elif r < 0.20: n = 0
@@ -88,7 +93,7 @@ def _retype(rng, ty, dims):
     return dims, [harness.fhex(gen.rfloat(rng)) for _ in range(n)]
 
 def sel(ln):
-    return ln.split(' ')[0] in ('P.seti', 'P.setu', 'P.setf', 'P.sets', 'P.get', 'P.desc', 'P.new', 'P.set', 'P.show', 'P.lock', 'P.unlock', 'P.name', 'param', 'lock', 'unlock', 'snap')
+    return ln.split(' ')[0] in ('get.paramn', 'P.seti', 'P.setu', 'P.setf', 'P.sets', 'P.get', 'P.desc', 'P.new', 'P.set', 'P.show', 'P.lock', 'P.unlock', 'P.name', 'param', 'lock', 'unlock', 'snap')
 def proj(l):
     # the property's projection of a snapshot: the parameter tree (groups, parameters)
     return l if l[:2] in ('G ', 'P ', 'ok', 'th') else None
@@ -146,8 +151,10 @@ def oracle(rep, cid, lines, cl, stats):
             if pr >= 2 ** 31:
                 stats['set_outside_int_range'] = stats.get('set_outside_int_range', 0) + 1
                 if (o == 'ok') != ok_doc:
-                    rep.violation('oracle', 'set of %d values with dimensions %s (product beyond the int range) answered %r' % (n, dims, o),
-                                  script=[l for l in hist if l.startswith('P.')], signature='dims-product-wraps-32bit')
+                    # the known finding is about EMPTY data under dimensions whose product is a multiple of 2^32; values accepted
+                    # under a product they do not cover are another matter
+                    if rep.violation('oracle', 'set of %d values with dimensions %s (product beyond the int range) answered %r' % (n, dims, o),
+                                  script=[l for l in hist if l.startswith('P.')], signature='dims-product-wraps-32bit' if n == 0 else None): bad += 1
             elif (o == 'ok') != ok_doc or (o != 'ok' and o != 'throw range_error'):
                 bad += 1
                 rep.violation('oracle', 'set of %d values with dimensions %s answered %r; documented: %s' % (n, dims, o, 'accepted' if ok_doc else 'range_error'),
@@ -217,6 +224,16 @@ def run(rep, work, rng, tier):
         lines, k = build(rng, rng.choice([2, 5, 9, 14]))
         cases.append(('e%d' % i, lines))
         for a, b in k.items(): kinds[a] = kinds.get(a, 0) + b
+    # an object with TWO groups of the same name (reachable through a file: "Extra" and "EXTRA" are distinct in memory and both
+    # written as EXTRA): parameter("EXTRA", p) edits the group every look-up by that name finds — the first
+    for i in range(max(6, n // 25)):
+        g1, g2 = rng.choice([(b'Extra', b'EXTRA'), (b'extra', b'EXTRA'), (b'Gx', b'GX')])
+        lines = ['new 0', 'P.new %s x' % hx(b'A1'), 'P.set I 0 1 1', 'param 0 ' + hx(g1), 'P.new %s x' % hx(b'B1'), 'P.set I 0 1 2', 'param 0 ' + hx(g2),
+                 'save 0 dg%d.c3d' % i, 'load 1 dg%d.c3d' % i, 'snap 1']
+        for _k in range(rng.choice([1, 2, 3])):
+            nm = rng.choice([b'A1', b'B1', b'NEWP', b'C%d' % _k])
+            lines += ['P.new %s x' % hx(nm), gen_set(rng)[0], 'param 1 ' + hx(g2.upper()), 'snap 1', 'get.paramn 1 %s %s' % (hx(g2.upper()), hx(nm))]
+        cases.append(('dg%d' % i, lines)); kinds['two-groups-of-one-name'] = kinds.get('two-groups-of-one-name', 0) + 1
     # parameters of EVERY type the format knows (BYTE included: no setter builds one) copied out of a loaded file and handed to
     # parameter(): into a new group, into an existing one, over a parameter of that name
     import os
